@@ -121,7 +121,12 @@ impl FromStr for Imm {
         };
 
         if s == "zero" {
-            Ok(Imm(0))
+            // the keyword takes no sign
+            if negative {
+                Err(())
+            } else {
+                Ok(Imm(0))
+            }
         } else if let Some(stripped) = s.strip_prefix("0x") {
             if stripped.starts_with('-') {
                 Err(())
